@@ -131,6 +131,12 @@ pub fn text(c: &Case) -> String {
         body += &occ_text(o, k);
         body += "\n";
     }
+    if let Some((kind, _, _)) = c.auto.as_ref().filter(|a| a.0.starts_with("COMPOF-")) {
+        // the automatic-tagging decision is taken on the components as written, before COMPONENTS OF is expanded (X.680 25.7)
+        let k = kind.trim_start_matches("COMPOF-");
+        body += &format!("A0 ::= {k} {{ x [5] BOOLEAN, y [6] NULL }}\nT ::= {k} {{ c INTEGER, COMPONENTS OF A0 }}\n");
+        return module("M", &c.default, c.ext_implied, &body);
+    }
     if let Some((kind, mask, nested)) = &c.auto {
         let comps: Vec<String> = [("a", "BOOLEAN"), ("b", "INTEGER"), ("c", "NULL")].iter().enumerate().map(|(i, (n, t))| if mask & (1 << i) != 0 { format!("{n} [{i}] {t}") } else { format!("{n} {t}") }).collect();
         let inner = format!("{kind} {{ {} }}", comps.join(", "));
@@ -227,6 +233,9 @@ pub fn reference_encodings(c: &Case) -> Vec<(String, Vec<u8>, bool)> {
             }
         };
         out.push((name, enc, true));
+    }
+    if c.auto.as_ref().map_or(false, |a| a.0.starts_with("COMPOF-")) {
+        return out;
     }
     if let Some((kind, mask, nested)) = &c.auto {
         let automatic = auto && *mask == 0;
@@ -340,7 +349,7 @@ impl Prop for C03 {
         "C03"
     }
     fn rule(&self) -> String {
-        "(attribute level + wire level: for the subset number 5 (300 on type assignments) x every default, keyword, kind and path up to depth 2 (thorough: depth 3 and every class) and the automatic-tagging family, the bindings are compiled and run: rasn's DER codec must decode the reference encoding computed from X.680 31 / X.690 of a canonical value and re-encode it identically) complete product: module default {none,EXPLICIT,IMPLICIT,AUTOMATIC} × keyword {none,IMPLICIT,EXPLICIT} × class {context,APPLICATION,PRIVATE,UNIVERSAL} × number {0,5,300} × position {type assignment, SEQUENCE/SET component, CHOICE alternative, component of a nested anonymous SEQUENCE / CHOICE (depth 2 and 3), SEQUENCE OF / SET OF element (top-level and inside a component)} × tagged type {primitive, referenced SEQUENCE, referenced CHOICE, inline CHOICE, inline SEQUENCE, open type; references named IMPLICITRef / EXPLICITRef next to a type Ref}, minus IMPLICIT on CHOICE/open type; plus the automatic-tagging predicate {4 defaults}×{SEQUENCE,SET,CHOICE}×{8 tagged subsets of 3 components}×{top-level,nested}; thorough adds every ordered pair of occurrences at different positions in one module (independence) and EXTENSIBILITY IMPLIED. Oracle: X.680 §31.2.7 / §25.3 / §29.2 reference on the #[rasn(tag(..))] / automatic_tags attributes. For CHOICE/open-typed *components* only (class, number) are compared (rasn wraps those itself). Non-trivial: compiled cleanly and the item/field that should carry the tag was found.".into()
+        "(attribute level + wire level: for the subset number 5 (300 on type assignments) x every default, keyword, kind and path up to depth 2 (thorough: depth 3 and every class) and the automatic-tagging family, the bindings are compiled and run: rasn's DER codec must decode the reference encoding computed from X.680 31 / X.690 of a canonical value and re-encode it identically) complete product: module default {none,EXPLICIT,IMPLICIT,AUTOMATIC} × keyword {none,IMPLICIT,EXPLICIT} × class {context,APPLICATION,PRIVATE,UNIVERSAL} × number {0,5,300} × position {type assignment, SEQUENCE/SET component, CHOICE alternative, component of a nested anonymous SEQUENCE / CHOICE (depth 2 and 3), SEQUENCE OF / SET OF element (top-level and inside a component)} × tagged type {primitive, referenced SEQUENCE, referenced CHOICE, inline CHOICE, inline SEQUENCE, open type; references named IMPLICITRef / EXPLICITRef next to a type Ref}, minus IMPLICIT on CHOICE/open type; plus the automatic-tagging predicate {4 defaults}×{SEQUENCE,SET,CHOICE}×{8 tagged subsets of 3 components}×{top-level,nested}, and with COMPONENTS OF a type whose components are tagged (the decision is taken on the components as written); thorough adds every ordered pair of occurrences at different positions in one module (independence) and EXTENSIBILITY IMPLIED. Oracle: X.680 §31.2.7 / §25.3 / §29.2 reference on the #[rasn(tag(..))] / automatic_tags attributes. For CHOICE/open-typed *components* only (class, number) are compared (rasn wraps those itself). Non-trivial: compiled cleanly and the item/field that should carry the tag was found.".into()
     }
     fn selftest(&self) -> Result<u64, String> {
         if parse_tag("explicit(context,5)") != Some(Tag { explicit: true, class: "context".into(), num: 5 }) || parse_tag("application,300") != Some(Tag { explicit: false, class: "application".into(), num: 300 }) {
@@ -424,6 +433,11 @@ impl Prop for C03 {
         for d in defaults {
             for o in &occs {
                 out.push(Case { default: d.into(), occ: vec![o.clone()], auto: None, ext_implied: false });
+            }
+        }
+        for d in defaults {
+            for kind in ["COMPOF-SEQUENCE", "COMPOF-SET"] {
+                out.push(Case { default: d.into(), occ: vec![], auto: Some((kind.into(), 0, false)), ext_implied: false });
             }
         }
         for d in defaults {
@@ -559,7 +573,34 @@ impl Prop for C03 {
                 },
             }
         }
-        if let Some((kind, mask, nested)) = &c.auto {
+        if let Some((kind, _, _)) = c.auto.as_ref().filter(|a| a.0.starts_with("COMPOF-")) {
+            match m.find("T").and_then(|i| i.attrs()) {
+                None => {
+                    found_all = false;
+                    discs.push(Disc::new(format!("auto|missing-item|{kind}"), format!("{src}\n{gen}")));
+                }
+                Some(a) => {
+                    let want = c.default == "AUTOMATIC";
+                    let got = a.rasn.has("automatic_tags");
+                    if want != got {
+                        discs.push(Disc::new(format!("auto|default={dflt}|kind={kind}|exp={want}|got={got}"), format!("no component of T is tagged as written\n{src}\n{gen}")));
+                    }
+                    for (fname, num) in [("c", None), ("x", Some(5u32)), ("y", Some(6u32))] {
+                        match find_field(m, "T", fname) {
+                            Some((fa, _)) => {
+                                let has = fa.rasn.get("tag").and_then(parse_tag);
+                                // under automatic tagging the included components are re-tagged like the others
+                                let want_tag = if want { None } else { num };
+                                if has.as_ref().map(|t| t.num) != want_tag {
+                                    discs.push(Disc::new(format!("auto|component-tag|kind={kind}|default={dflt}|want={}|got={}", want_tag.is_some(), has.is_some()), format!("component {fname}: {has:?}\n{src}\n{gen}")));
+                                }
+                            }
+                            None => discs.push(Disc::new(format!("auto|missing-component|{kind}"), format!("component {fname}\n{src}\n{gen}"))),
+                        }
+                    }
+                }
+            }
+        } else if let Some((kind, mask, nested)) = &c.auto {
             let name = if *nested { "TN" } else { "T" };
             match m.find(name).and_then(|i| i.attrs()) {
                 None => {
